@@ -1,6 +1,7 @@
 package main
 
 import (
+	"strings"
 	"github.com/mlange-42/arche/ecs"
 )
 
@@ -44,6 +45,13 @@ func (s *Session) step(op Op) map[string]interface{} {
 		opb.W = 1
 		lb := s.b.Exec(s.i, opb)
 		s.out.write(lb)
+		if strings.HasPrefix(op.Op, "Batch") && (!ok || lb["res"].(map[string]interface{})["panic"].(bool)) {
+			// A batch call that panics has processed the tables before the offending one: what is left behind follows
+			// the table order, which legitimately differs between a reset and a fresh world ("up to iteration
+			// order"; only single-entity failures are promised to change nothing). The worlds are no longer comparable.
+			s.b = nil
+			return la
+		}
 		eq := map[string]interface{}{"i": s.i, "w": 0, "op": "TwinEq", "api": s.h.Twin, "of": op.Op,
 			"a": pick(la, "res", "obs", "events", "dump", "panel", "qinfo", "pos"),
 			"b": pick(lb, "res", "obs", "events", "dump", "panel", "qinfo", "pos")}
